@@ -118,10 +118,9 @@ pub fn run_case(c: &AffineCase) -> Res {
     let key = format!("{} -> {} (a={:e}, b={:e})", c.cell.key(), t.key(), c.a, c.b);
     let strict_branching = !c.extreme && dyadic(c.b) && exact_params(&c.cell, &t, c.a, c.b);
     if r0.call_words != r1.call_words {
-        // only samplers whose *accept / reject* decisions can flip under rounded parameters may legitimately
-        // consume a different number of words (Pert: Beta rejection; InverseGaussian: the normal's ziggurat is the
-        // same but the documented algorithm has no retry — kept for safety); Triangular always draws exactly one
-        // uniform whatever branch it takes, so its word count is judged in both regimes
+        // only a sampler whose accept / reject decisions can flip under rounded parameters may legitimately
+        // consume a different number of words: Pert (Beta rejection). Triangular always draws exactly one uniform
+        // and InverseGaussian one normal and one uniform whatever branch they take: judged in both regimes
         let branching = matches!(c.cell.fam, Fam::Pert);
         if !branching || strict_branching {
             res.violation = Some(("word_count".into(), format!("{key}: {} vs {} words consumed on the same stream", r0.call_words, r1.call_words)));
